@@ -78,20 +78,37 @@ Theorem optional_key_drop_refuted :
     end = true.
 Proof. exact CorruptProofs.optional_key_drop_refuted. Qed.
 
-(* (h) REFUTED for array_len: "an altered descriptor field is rejected" - 64-bit wrap-around
-   (finding F15: out-of-bounds read, SIGSEGV in the implementation) and alignment slack (F16) *)
-Theorem array_len_wrap_refuted :
-  exists p v, p = 64 + 64 * 45 + 39 /\ byte_ok v /\ nth (Z.to_nat p) f0 0 <> v /\
-    is_ok (kas_open true (subst_byte f0 p v)) = true /\
-    load_verdict false false (subst_byte f0 p v) = V_OOB.
-Proof. exact CorruptProofs.array_len_wrap_refuted. Qed.
+(* (h) array_len and key_len under the repaired, non-wrapping bound checks of
+   kastore_read_descriptors (fix fd85063; finding F15 was the wrap-around of the old checks):
+   every other value is rejected unless it stays inside the 8-byte alignment slack (F16, refuted
+   below) *)
+Theorem array_len_rejected : forall its pre it post v y,
+  items_ok its -> its = pre ++ it :: post -> kw_fs its + 8 <= two64 -> 0 <= v < two64 ->
+  (let a := align8 (layout_end (kw_a its) pre) in
+   match post with
+   | [] => a + v * type_size (itype it) <> a + isize it
+   | _ => align8 (a + v * type_size (itype it)) <> align8 (a + isize it)
+   end) ->
+  exists e, kas_open true (kw_header its ++ descs_bytes (altered_descs its pre it post (fun d => set_al d v)) ++ y) = Err e.
+Proof. exact CorruptProofs.array_len_rejected. Qed.
 
-Theorem array_len_wrap_refuted_kas :
-  let f := kas_encode [mk_item [97] 4 1 [1; 2; 3; 4]] in
-  exists v, byte_ok v /\ nth (64 + 39) f 0 <> v /\
-    is_ok (kas_open true (subst_byte f (64 + 39) v)) = true /\ kas_decode (subst_byte f (64 + 39) v) = OOB.
-Proof. exact CorruptProofs.array_len_wrap_refuted_kas. Qed.
+Theorem key_len_rejected : forall its pre it post v y,
+  items_ok its -> its = pre ++ it :: post -> kw_fs its + 8 <= two64 -> 0 <= v < two64 ->
+  v <> zlen (ikey it) ->
+  (post = [] -> align8 (kw_k its + keys_len pre + v) <> align8 (kw_a its)) ->
+  exists e, kas_open true (kw_header its ++ descs_bytes (altered_descs its pre it post (fun d => set_kl d v)) ++ y) = Err e.
+Proof. exact CorruptProofs.key_len_rejected. Qed.
 
+(* the former F15 witness (top byte of array_len of populations/metadata_offset := 0x40) on the
+   5188-byte file: rejected by the container reader *)
+Theorem array_len_wrap_now_rejected :
+  let p := 64 + 64 * 45 + 39 in
+  nth (Z.to_nat p) f0 0 = 0 /\ kas_open true (subst_byte f0 p 64) = Err E_FORMAT /\
+  load_verdict false false (subst_byte f0 p 64) = T_KAS /\
+  (let f := kas_encode [mk_item [97] 4 1 [1; 2; 3; 4]] in kas_decode (subst_byte f (64 + 39) 64) = Err E_FORMAT).
+Proof. exact CorruptProofs.array_len_wrap_now_rejected. Qed.
+
+(* REFUTED inside the alignment slack (finding F16, still known) *)
 Theorem array_len_slack_refuted :
   exists p v, p = 64 + 64 * 58 + 32 /\ byte_ok v /\ nth (Z.to_nat p) f0 0 <> v /\
     match tsk_load_bytes false false (subst_byte f0 p v) with
@@ -100,12 +117,15 @@ Theorem array_len_slack_refuted :
     end = true.
 Proof. exact CorruptProofs.array_len_slack_refuted. Qed.
 
-(* data region, REFUTED "what loads is valid": a NaN sequence_length passes `L <= 0.0` (F19) *)
-Theorem nan_sequence_length_refuted :
+(* data region: a NaN sequence_length is rejected by the repaired `!(L[0] > 0.0)` (fix cfb2bb6);
+   the pinned test `L[0] <= 0.0` let it pass (historical record) *)
+Theorem nan_sequence_length_rejected :
   slice f0 5120 8 = [0; 0; 0; 0; 0; 0; 240; 63] /\
-  double_le_zero [0; 0; 0; 0; 0; 0; 248; 127] = false /\
-  match tsk_load_bytes false false (subst_many f0 [(5126, [248; 127])]) with
-  | Ok (tc', []) => zlist_eqb (tc_L tc') [0; 0; 0; 0; 0; 0; 248; 127]
-  | _ => false
-  end = true.
-Proof. exact CorruptProofs.nan_sequence_length_refuted. Qed.
+  double_not_positive [0; 0; 0; 0; 0; 0; 248; 127] = true /\
+  load_verdict false false (subst_many f0 [(5126, [248; 127])]) = T_BAD_SEQUENCE_LENGTH /\
+  load_verdict false false f0 = V_LOADED.
+Proof. exact CorruptProofs.nan_sequence_length_rejected. Qed.
+
+Theorem nan_sequence_length_pinned_refuted :
+  double_le_zero_pinned [0; 0; 0; 0; 0; 0; 248; 127] = false.
+Proof. exact CorruptProofs.nan_sequence_length_pinned_refuted. Qed.
